@@ -15,7 +15,7 @@ S (spec -> code): behaviours produced by `tlc -simulate` on Sector.tla (create /
 """
 import numpy as np
 
-from .. import common, histgen, canon, simtrace, tlc
+from .. import common, histgen, canon, simtrace, tlc, apalache
 from ..parallel import validate_chunks, pmap
 
 
@@ -192,6 +192,18 @@ def run(ctx):
               invariants=['LenOK', 'KindOK', 'NeverRaised'], properties=['BoundaryKept'], view='view', coverage=True)
     ctx.model('Sector', 'm_F3_legacy', constants=dict(NOBJ=2, MaxDepth=3, LegacyFromVector='TRUE'), defs=dict(ZeroCreate='{FALSE}'), invariants=['NeverRaised'],
               expect_violation='NeverRaised')
+    if ctx.replay is None and not ctx.quick and apalache.available():
+        # histories of ANY length: LenOK / KindOK / NeverRaised as an inductive invariant of Sector.tla (Apalache); the pinned
+        # from_vector (finding F3) must break the inductive step
+        res = []
+        for mod, init, inv, length, want in (('MC_SectorInd', 'Init', 'IndInv', 0, 'NoError'), ('MC_SectorInd', 'IndInit', 'IndInv', 1, 'NoError'),
+                                             ('MC_SectorIndLegacy', 'IndInit', 'IndInv', 1, 'Error')):
+            got, wall = apalache.check(mod, init, inv, length, ctx.work)
+            res.append(dict(module=mod, init=init, inv=inv, length=length, outcome=got, expected=want, wall_s=round(wall, 1)))
+            ctx.log(f'apalache {mod} --init={init} --inv={inv} --length={length}: {got} (expected {want}), {wall:.1f}s')
+            if got != want and not got.startswith('unknown'):
+                raise common.SpecError(f'Apalache: {mod} {init}/{inv}: outcome {got}, expected {want}')
+        ctx.notes['apalache_inductive'] = res
     if ctx.replay is None:
         replay_sector(ctx)
         # the charge algebra every block-sparse routine rests on (spec-level conformance: QNum.tla)
